@@ -73,14 +73,14 @@ PROPS["C03"] = {
 }
 PROPS["C04"] = {
     "theorems": ["Reader.readLoop_total", "Reader.readLoop_no_panic", "Reader.step_alloc_bound", "Reader.step_rejects_before_alloc", "Reader.cont_buffer_bounded"],
-    "suites": ["read", "limited", "hs-server", "hs-client", "faults:hs"],
+    "suites": ["read", "limited", "hs-server", "hs-client", "faults:hs", "sess:multi"],
     "trusted": READ_TRUSTED + ["opening-handshake byte parsing is net/http's (http.ReadRequest / http.ReadResponse): outside the model, sampled by the hs-server/hs-client suites only"],
     "clauses_without_theorem": ["handshake bytes cannot crash or hang the endpoint (net/http parsing; sampled)", "the inflater's own working memory is bounded (klauspost; the limit on its OUTPUT is Codec.decompress)"],
 }
 PROPS["C13"] = {
     "modules": ["Gws.Props.C13", "Gws.Props.C13Limited"],
     "theorems": ["Limited.copy_spec", "Limited.accepted_within_limit", "Limited.within_limit_accepted", "Limited.written_bounded", "Limited.final_chunk_counted", "Reader.delivered_within_limit", "Reader.oversize_frame_1009", "Reader.oversize_fragments_1009", "Reader.inflate_limit", "Reader.within_limit_delivered"],
-    "suites": ["read", "limited"],
+    "suites": ["read", "limited", "sess:multi"],
     "trusted": READ_TRUSTED + ["the streaming loop of Decompress (io.CopyBuffer = bytes.Buffer.ReadFrom through limitedReader) is Model/Limited, proved equivalent to 'total inflated size > limit' for every chunking and tied by the limited suite on the reads actually served; the read-path theorems use the total-size form (Codec.decompress)"],
 }
 PROPS["C06"] = {
@@ -129,7 +129,7 @@ PROPS["C02"] = {
     "theorems": ["Session.windows_in_sync", "Session.inSync_step", "Session.hist_is_compressed_payloads", "Session.send_dict_suffix",
                  "Spec.Inflate.bounded_window_suffices", "Spec.Inflate.history_prefix_irrelevant", "Spec.Inflate.history_extension_harmless",
                  "Spec.Inflate.window_determines_output", "Spec.Inflate.bounded_window_iff"],
-    "suites": ["sess:1", "sess:0", "win", "write:s on", "write:c on"],
+    "suites": ["sess:1", "sess:0", "sess:multi", "win", "write:s on", "write:c on"],
     "trusted": ["klauspost/compress/flate: the compressor emits RFC 1951 whose back-references stay within its window and dictionary (Codec law L2), the inflater implements RFC 1951 (L3) - SAMPLED, not proved: every compressed frame in the read/sess/write suites goes through the real library and (read, write) through the Lean inflater",
                 "which frames are compressed and which window update follows which write: Session model, tied by the sess suite (all four windows read back through the accessor hook at quiescence)"],
     "clauses_without_theorem": ["the DEFLATE library's own conformance (L2/L3): sampled by the suites, not proved"],
